@@ -945,9 +945,13 @@ where
         if is_deferred(node) {
             deferred.insert(ix as u16);
         }
-        if deferred.contains(&(ix as u16)) {
-            for child in predicate.node_edges(ix).expect("Already checked") {
-                deferred.insert(*child);
+    }
+    // All descendants of a deferred node are deferred, however the nodes are numbered.
+    let mut pending: Vec<u16> = deferred.iter().copied().collect();
+    while let Some(ix) = pending.pop() {
+        for child in predicate.node_edges(ix as usize).expect("Already checked") {
+            if deferred.insert(*child) {
+                pending.push(*child);
             }
         }
     }
